@@ -50,6 +50,10 @@ pub struct GenCfg {
     /// unless `use_paths` is set)
     #[serde(default)]
     pub paths_at_start: bool,
+    /// the editor does not support workspace/configuration and dynamic registration: it answers
+    /// those requests with a MethodNotFound error; settings stay at their defaults all session
+    #[serde(default)]
+    pub config_errors: bool,
     /// C08: after every text change, request code actions at every position inside every
     /// published diagnostic range (bounded)
     #[serde(default)]
@@ -543,6 +547,9 @@ fn mutate_settings(cur: &Settings, cfg: &GenCfg, rng: &mut Rng) -> Settings {
 
 pub fn initial_settings(cfg: &GenCfg, rng: &mut Rng) -> Settings {
     let mut s = Settings::default();
+    if cfg.config_errors {
+        return s;
+    }
     if cfg.paths_at_start {
         s.user_dict_path = rng.pick(&[None, None, Some(format!("{WORLD}/cfg/user-dict.txt")), Some(format!("{WORLD}/cfg2/deep/dir/words.txt"))]).clone();
         s.file_dict_path = rng.pick(&[None, None, Some(format!("{WORLD}/cfg/filedicts")), Some(format!("{WORLD}/cfg2/fd/"))]).clone();
